@@ -40,8 +40,14 @@ def inv_text(t: str) -> str:
     return re.sub(r"\s+", " ", t).strip()
 
 
-def inv_flat(tree) -> list[str]:
-    return [("t:" + inv_text(s[2:])) if s.startswith("t:") else s for s in project.flat(tree)]
+TAG_RE = re.compile(r"\{%.*?%\}|\{#.*?#\}|\{\{.*?\}\}|<!--.*?-->", re.S)
+
+
+def inv_flat(tree, text="") -> list[str]:
+    """normalised node strings (text nodes through the inverse mapping) + the template tags / comments of the raw text, verbatim
+    up to whitespace runs: tags must be identical, not merely equal after the inverse mapping"""
+    return [("t:" + inv_text(s[2:])) if s.startswith("t:") else s for s in project.flat(tree)] + \
+        ["tag:" + re.sub(r"\s+", " ", m.group(0)) for m in TAG_RE.finditer(text)]
 
 
 def _real(job):
@@ -69,7 +75,7 @@ def _doc_pair(job):
         on2 = reformat_text(on, **dict(o, ellipses=True))
     except BaseException as e:  # noqa: BLE001
         return dict(exc=repr(e))
-    return dict(off=off, on=on, a=inv_flat(project.parse_marko(off)), b=inv_flat(project.parse_marko(on)), again_same=(on2 == on))
+    return dict(off=off, on=on, a=inv_flat(project.parse_marko(off), off), b=inv_flat(project.parse_marko(on), on), again_same=(on2 == on))
 
 
 def run(tier: str) -> int:
